@@ -248,7 +248,9 @@ def xproc_run(case, hashseeds, tag):
                 except FileNotFoundError:
                     pass
             env = {'PYTHONHASHSEED': str(hs), 'PYTHONPATH': repo_src, 'PYTHONDONTWRITEBYTECODE': '1',
-                   'HOME': base + '/home', 'PATH': '/usr/bin:/bin', 'LANG': 'C.UTF-8', 'PYTHONUTF8': '1'}
+                   'HOME': base + '/home', 'PATH': '/usr/bin:/bin', 'LANG': 'C.UTF-8', 'PYTHONUTF8': '1',
+                   'TMPDIR': base + '/tmp'}
+            os.makedirs(base + '/tmp', exist_ok=True)
             if hs % 3 == 1:
                 env['PYTHONOPTIMIZE'] = str(1 + hs % 2)         # python -O / -OO
             if hs % 4 == 2:
